@@ -62,14 +62,17 @@ Nullable(t) ==
     [] t.op = "condexp" -> Nullable(t.kids[2]) \/ Nullable(t.kids[3])
     [] OTHER -> TRUE
 
-RECURSIVE Strip(_)
-Strip(t) == IF t.op \in {"opt", "atom"} \/ (t.op = "cat" /\ Len(t.kids) = 1) THEN Strip(t.kids[1]) ELSE t
+\* what the reducer sees through when it multiplies directly nested quantifiers; under ExplicitCapture (ncg) an
+\* unnamed group is an ordinary non-capturing group
+RECURSIVE Strip(_,_)
+Strip(t, ncg) == IF t.op \in {"opt", "atom"} \/ (t.op = "cat" /\ Len(t.kids) = 1) \/ (ncg /\ t.op = "grp" /\ t.nm = "")
+                 THEN Strip(t.kids[1], ncg) ELSE t
 
 \* the C01 fragment: every quantifier operand is non-nullable and is not (reducible to) a quantified item
-RECURSIVE InFragment(_)
-InFragment(t) ==
-  /\ \A j \in 1..Len(t.kids) : InFragment(t.kids[j])
-  /\ t.op = "rep" => ~Nullable(t.kids[1]) /\ Strip(t.kids[1]).op # "rep"
+RECURSIVE InFragment(_,_)
+InFragment(t, ncg) ==
+  /\ \A j \in 1..Len(t.kids) : InFragment(t.kids[j], ncg)
+  /\ t.op = "rep" => ~Nullable(t.kids[1]) /\ Strip(t.kids[1], ncg).op # "rep"
 
 \* ---------------------------------------------------------------- indexed-sequence combinators
 Map1(f(_), A)       == [i \in 1..Len(A) |-> f(A[i])]
